@@ -3,6 +3,7 @@
 //! returned and "(1)" when it panicked.  A suite that returns None was given a
 //! case it cannot decode: printed as the BAD marker.
 mod sx;
+mod conv;
 mod suites {
     include!(concat!(env!("OUT_DIR"), "/suites_gen.rs"));
 }
